@@ -312,7 +312,13 @@ def r10_7(prog: Program, rep):
     wr = [i for i, n in g.nodes.items() if n.kind == "with_enter" and is_gitfile_call(prog, m, n.ast.items[n.info].context_expr)
           and "w" in (gitfile_mode(n.ast.items[n.info].context_expr) or "")]
     if not wr:
-        raise AnalysisError("DiskObjectStore.add_object: the loose-file write (with GitFile(.., 'wb')) was not found")
+        # explicit form: h = GitFile(.., "wb") ... h.write(..)
+        hs_ = [n.ast.targets[0].id for n in g.nodes.values() if n.kind == "stmt" and isinstance(n.ast, ast.Assign) and isinstance(n.ast.targets[0], ast.Name)
+               and is_gitfile_call(prog, m, n.ast.value) and "w" in (gitfile_mode(n.ast.value) or "")]
+        wr = [i for i, n in g.nodes.items() for c in node_calls(n) if isinstance(c.func, ast.Attribute) and c.func.attr == "write"
+              and isinstance(c.func.value, ast.Name) and c.func.value.id in hs_]
+    if not wr:
+        raise AnalysisError("DiskObjectStore.add_object: the loose-file write (GitFile(.., 'wb')) was not found")
     r = reach(g, [g.entry], avoid=set(wr), include_srcs=True, edge_ok=lambda a, b, l: not (a in ut and l not in EXC_LABELS))
     bad = g.exit_normal in r
     rep.ob("R10.7", OS_PY, f.qual, "every return follows a successful os.utime of the loose file or the write of the loose file", bool(ut) and not bad,
@@ -354,7 +360,104 @@ def r10_8(prog: Program, rep):
         raise AnalysisError(f"expected >= 5 functions in refs.py that read both loose and packed refs, found {n}")
 
 
+def r10_9(prog: Program, rep):
+    """The grace period read from the configuration is a NUMBER of seconds: garbage_collect reads None as 'no age check at all',
+    so the reader of gc.pruneExpire never returns None (a value such as `never` must keep everything, not prune at once)."""
+    m = prog.module("dulwich/gc.py")
+    f = m.funcs.get("get_prune_grace_period")
+    if f is None:
+        raise AnalysisError("gc.get_prune_grace_period not found")
+    rets = [r for r in ast.walk(f.node) if isinstance(r, ast.Return)]
+    none_rets = [r for r in rets if r.value is None or (isinstance(r.value, ast.Constant) and r.value.value is None)]
+    gcf = m.funcs.get("garbage_collect")
+    gate = gcf is not None and "grace_period is not None" in norm(gcf.node, 200000).replace("grace_period is None", "grace_period is not None")
+    rep.ob("R10.9", m.rel, f.qual, "the configured grace period is never None (None would switch the age check off)", bool(rets) and not none_rets and gate,
+           "a configuration value is mapped to None: garbage_collect treats None as 'prune without looking at the age', so every unreachable "
+           "object - including those a committer has just written - is pruned immediately", none_rets[0].lineno if none_rets else f.node.lineno)
+
+
+def r10_11(prog: Program, rep):
+    """AGE = NEWEST COPY.  An object can be stored loose and in several packs; the grace period protects operations that
+    are still in flight, so the age of an object is that of its newest copy.  In DiskObjectStore.get_object_mtime no mtime
+    is returned from inside the search (first copy found wins); every value returned is an aggregate (max) computed
+    after both the loose file and all packs were consulted."""
+    f = prog.func(OS_PY, "DiskObjectStore.get_object_mtime")
+    m = f.module
+    g = cfg_of(prog, f)
+    loops = [l for l in ast.walk(f.node) if isinstance(l, ast.For) and "packs" in norm(l.iter)]
+    if not loops:
+        raise AnalysisError("get_object_mtime: loop over the packs not found")
+    rets = [r for r in ast.walk(f.node) if isinstance(r, ast.Return) and r.value is not None]
+    if not rets:
+        raise AnalysisError("get_object_mtime: no return with a value")
+    early = [r for r in rets if any(any(x is r for x in ast.walk(l)) for l in loops) or r.lineno < loops[0].lineno]
+    agg = [r for r in rets if any(isinstance(c, ast.Call) and callee_name(c) == "max" for c in ast.walk(r.value))]
+    ok = not early and len(agg) == len(rets)
+    bad = (early or [r for r in rets if r not in agg] or rets)[0]
+    rep.ob("R10.11", OS_PY, f.qual, "the mtime returned is the maximum over ALL copies (loose file and every pack), never the first copy found", ok,
+           f"`{norm(bad, 60)}` answers from one copy: an unreachable object with an old loose file and a pack written seconds ago (a push that has "
+           f"not updated its ref yet) looks old, and gc with the default grace period deletes both copies", bad.lineno)
+
+
+def r10_12(prog: Program, rep):
+    """ITERATION ORDER follows the direction in which a repack moves objects: loose -> pack, old packs -> new pack.
+    PackBasedObjectStore.__iter__ therefore (a) lists the loose objects BEFORE the packs and (b) rescans the pack directory
+    after the packs it knew were walked (a loop around _update_pack_cache that ends only when no new pack appeared);
+    otherwise objects that exist throughout are omitted.  (c) SIBLINGS-AGREE: every os.listdir of a fan-out directory in the
+    disk store tolerates the directory having vanished (git prune-packed removes emptied fan-out directories)."""
+    f = prog.func(OS_PY, "PackBasedObjectStore.__iter__")
+    g = cfg_of(prog, f)
+    loose = [i for i, n in g.nodes.items() for c in node_calls(n) if callee_name(c) == "_iter_loose_objects"]
+    packs = [i for i, n in g.nodes.items() if n.kind == "stmt" and any(isinstance(y, ast.YieldFrom) and isinstance(y.value, ast.Name) for y in ast.walk(n.ast))]
+    scans = [i for i, n in g.nodes.items() for c in node_calls(n) if callee_name(c) == "_update_pack_cache"]
+    if not loose or not packs or not scans:
+        raise AnalysisError(f"PackBasedObjectStore.__iter__: loose listing ({len(loose)}), pack walk ({len(packs)}) or pack-directory scan ({len(scans)}) not found")
+    bad = must_pass(g, packs, loose)
+    rep.ob("R10.12", OS_PY, f.qual, "loose objects are listed before any pack is walked", not bad,
+           "a pack is walked before the loose objects are listed: an object that a concurrent repack moves from a loose file into a NEW pack "
+           "is in neither the packs scanned earlier nor the loose listing made later", g.nodes[(bad or packs)[0]].line)
+    # (b) after walking a pack, the only way to the end passes another directory scan
+    after = [b for p_ in packs for b, l in g.succ[p_] if l not in EXC_LABELS]
+    bad2 = must_pass(g, [g.exit_normal], scans, start=after)
+    rep.ob("R10.12", OS_PY, f.qual, "after packs were walked the pack directory is scanned again before the iteration ends", not bad2,
+           "the pack directory is scanned once: a pack that a concurrent repack creates while the known packs are walked is never visited, "
+           "and the objects it took over from deleted packs are omitted", g.nodes[packs[0]].line)
+    # (c) fan-out listings
+    m = prog.module(OS_PY)
+    n = 0
+    for q, ff in sorted(m.funcs.items()):
+        if not q.startswith("DiskObjectStore.") or "#" in q:
+            continue
+        gg = None
+        for c in ast.walk(ff.node):
+            if not (isinstance(c, ast.Call) and dotted(c.func) == "os.listdir" and c.args and isinstance(c.args[0], ast.Call)
+                    and dotted(c.args[0].func) == "os.path.join" or
+                    isinstance(c, ast.Call) and dotted(c.func) == "os.listdir" and c.args and isinstance(c.args[0], ast.Name) and c.args[0].id in ("subdir",)):
+                continue
+            if m.enclosing_func(c) is not ff:
+                continue
+            n += 1
+            # inside a try whose handlers catch FileNotFoundError / OSError
+            x, guarded = c, False
+            while x in m.parents:
+                x = m.parents[x]
+                if isinstance(x, ast.Try) and any(h.type is None or any(t in norm(h.type) for t in ("FileNotFoundError", "OSError")) for h in x.handlers) \
+                        and any(any(y is c for y in ast.walk(b_)) for b_ in x.body):
+                    guarded = True
+                    break
+                if x is ff.node:
+                    break
+            rep.ob("R10.12", OS_PY, q, f"`{norm(c, 50)}` tolerates a fan-out directory that vanished", guarded,
+                   "git repack -d (prune-packed) removes the loose files it packed and the emptied fan-out directories: a directory removed between "
+                   "the outer and the inner listing makes the reader fail with FileNotFoundError although every object is still readable", c.lineno)
+    if n < 3:
+        raise AnalysisError(f"expected >= 3 fan-out directory listings in DiskObjectStore, found {n}")
+
+
 def run(prog: Program, rep, tier="quick"):
+    rep.rule("R10.11", "AGE = NEWEST COPY: get_object_mtime returns the maximum over the loose file and every pack, never the first copy found")
+    rep.rule("R10.12", "ITERATION ORDER: __iter__ lists loose objects before packs and rescans the pack directory until no new pack appears; fan-out listings tolerate a vanished directory")
+    rep.rule("R10.9", "gc.pruneExpire is read as a number of seconds, never as None (= no grace at all)")
     rep.rule("R10.8", "READ-ORDER: refs are read loose first, packed second (the order in which pack_refs moves them)")
     rep.rule("R10.7", "FRESHEN-OR-WRITE: DiskObjectStore.add_object refreshes the mtime of an existing loose object or writes it - never just returns")
     rep.rule("R10.6", "SAME-SNAPSHOT: repack/pack_loose_objects delete only packs and loose objects enumerated before add_objects")
@@ -378,6 +481,14 @@ def run(prog: Program, rep, tier="quick"):
     r10_6(prog, rep)
     r10_7(prog, rep)
     r10_8(prog, rep)
+    r10_9(prog, rep)
+    r10_11(prog, rep)
+    r10_12(prog, rep)
+    from sa.common import share
+    from rules import c14
+    share(rep, lambda: c14.r14_2(prog, rep), "R10.10", lambda o: "MIDX" in o.key or "multi-pack" in o.key or "vanished pack" in o.key or "protected region" in o.key,
+          "a reader that goes through the multi-pack-index survives a concurrent repack (shared with R14.2): the pack it names is dereferenced "
+          "inside the region that handles KeyError / PackFileDisappeared")
     rep.floor("R10.1", 4)
     rep.floor("R10.2", 4)
     rep.floor("R10.3", 7)
